@@ -30,6 +30,12 @@ PATTERN_FILES = ["a.txt", "sub/b.txt", "bumpver.toml", "docs/series.txt", "rel n
 UNRELATED = ["other.txt", "docs/x.txt"]
 
 
+# settings people keep in ~/.gitconfig that change what `git status` / `git branch` print
+USER_CONFIGS = [None, None, None, "[status]\n\tshowUntrackedFiles = no\n", "[status]\n\tshowUntrackedFiles = all\n",
+                "[color]\n\tui = always\n\tstatus = always\n\tbranch = always\n", "[core]\n\tquotePath = true\n",
+                "[status]\n\tshort = true\n\tbranch = true\n"]
+
+
 def cases_matrix():
     out = []
     for st in STATUSES:
@@ -99,6 +105,7 @@ class Dirty:
             case["extra"] = [[], ["--ignore-vcs-tag"], ["--tag-scope", "branch"], ["--pin-increments"]][index4]
             # the developer's tree may hold many other uncommitted files (listed before the pattern files by git)
             case["many"] = [0, 0, 14, 0][index4]
+            case["user_config"] = USER_CONFIGS[(index // 7) % len(USER_CONFIGS)] if index4 == 3 else None
         else:
             rng = runner.rng_for(seed, self.name, index)
             dirt = []
@@ -115,6 +122,7 @@ class Dirty:
                     st = rng.choice(["modified_unstaged", "modified_staged", "modified_both"])
                 dirt.append({"status": st, "target": target, "path": path})
             case = {"dirt": dirt, "allow": rng.random() < 0.6, "many": rng.choice([0, 0, 0, 9, 11, 12, 30]),
+                    "user_config": rng.choice(USER_CONFIGS),
                     "extra": rng.choice([[], [], ["--ignore-vcs-tag"], ["--tag-scope", "global"], ["--tag-scope", "branch"],
                                          ["--pin-increments"], ["--commit"], ["--tag-commit"], ["--no-push"]])}
         case["ops"] = [{"op": "update"}]
@@ -133,8 +141,11 @@ class Dirty:
         for m in many:
             files[m] = b"unrelated work\n"
         invoker.write_tree(d, files)
-        rg = realgit.RealGit(d, TODAY, remote=False)
+        rg = realgit.RealGit(d, TODAY, remote=False, user_config=case.get("user_config"))
         rg.init()
+        if case.get("user_config"):
+            ctx.probe("user_gitconfig_" + case["user_config"].split("]")[0].strip("[") + "_" +
+                      case["user_config"].split("\t")[1].split(" ")[0])
         invoker.write_tree(d, late)
         for m in many:
             with open(os.path.join(d, m), "ab") as fobj:
@@ -176,7 +187,8 @@ class Dirty:
             ctx.probe("status_%s_%s" % (x["status"], x["target"]))
         facts = {"allow_dirty": case["allow"], "statuses": sorted(set(x["status"] for x in dirt)),
                  "pattern_dirty": sorted(set(x["status"] for x in pattern_dirty)),
-                 "untracked_dir": any(line.startswith("??") and line.endswith("/") for line in porcelain.splitlines())}
+                 "untracked_dir": any(line.startswith("??") and line.endswith("/") for line in porcelain.splitlines()),
+                 "user_config": (case.get("user_config") or "").replace("\n", " ").replace("\t", "").strip() or None}
         ctx.sample = {"campaign": self.name, "dirt": case["dirt"], "allow_dirty": case["allow"], "porcelain": porcelain,
                       "exit": res.exit_code}
         detail = "porcelain %r argv %s -> exit %s, HEAD %s, tags %s (%s)" % (
